@@ -1857,6 +1857,10 @@ get_make_property(CPPMakeProperty *make_property, CPPStructType *struct_type, CP
     CPPFunctionGroup::Instances::const_iterator fi;
     for (fi = fgroup->_instances.begin(); fi != fgroup->_instances.end(); ++fi) {
       CPPInstance *function = (*fi);
+      if (function->_vis > V_public) {
+        // A private or protected method cannot be called from a wrapper.
+        continue;
+      }
       CPPFunctionType *ftype = function->_type->as_function_type();
       if (ftype != nullptr) {
         length_function = get_function(function, "", struct_type,
@@ -1885,6 +1889,10 @@ get_make_property(CPPMakeProperty *make_property, CPPStructType *struct_type, CP
     CPPFunctionGroup::Instances::const_iterator fi;
     for (fi = fgroup->_instances.begin(); fi != fgroup->_instances.end(); ++fi) {
       CPPInstance *function = (*fi);
+      if (function->_vis > V_public) {
+        // A private or protected method cannot be called from a wrapper.
+        continue;
+      }
       CPPFunctionType *ftype = function->_type->as_function_type();
       if (ftype == nullptr) {
         continue;
@@ -1942,6 +1950,10 @@ get_make_property(CPPMakeProperty *make_property, CPPStructType *struct_type, CP
     CPPFunctionGroup::Instances::const_iterator fi;
     for (fi = fgroup->_instances.begin(); fi != fgroup->_instances.end(); ++fi) {
       CPPInstance *function = (*fi);
+      if (function->_vis > V_public) {
+        // A private or protected method cannot be called from a wrapper.
+        continue;
+      }
       CPPFunctionType *ftype =
         function->_type->as_function_type();
       if (ftype != nullptr && (TypeManager::is_integer(ftype->_return_type) ||
@@ -1966,6 +1978,10 @@ get_make_property(CPPMakeProperty *make_property, CPPStructType *struct_type, CP
     CPPFunctionGroup::Instances::const_iterator fi;
     for (fi = fgroup->_instances.begin(); fi != fgroup->_instances.end(); ++fi) {
       CPPInstance *function = (*fi);
+      if (function->_vis > V_public) {
+        // A private or protected method cannot be called from a wrapper.
+        continue;
+      }
       CPPFunctionType *ftype = function->_type->as_function_type();
       if (ftype != nullptr) {
         const CPPParameterList::Parameters &params = ftype->_parameters->_parameters;
@@ -1992,6 +2008,10 @@ get_make_property(CPPMakeProperty *make_property, CPPStructType *struct_type, CP
     CPPFunctionGroup::Instances::const_iterator fi;
     for (fi = fgroup->_instances.begin(); fi != fgroup->_instances.end(); ++fi) {
       CPPInstance *function = (*fi);
+      if (function->_vis > V_public) {
+        // A private or protected method cannot be called from a wrapper.
+        continue;
+      }
       CPPFunctionType *ftype = function->_type->as_function_type();
       if (ftype != nullptr && ftype->_parameters->_parameters.size() == 2) {
         inserter = function;
@@ -2014,6 +2034,10 @@ get_make_property(CPPMakeProperty *make_property, CPPStructType *struct_type, CP
     CPPFunctionGroup::Instances::const_iterator fi;
     for (fi = fgroup->_instances.begin(); fi != fgroup->_instances.end(); ++fi) {
       CPPInstance *function = (*fi);
+      if (function->_vis > V_public) {
+        // A private or protected method cannot be called from a wrapper.
+        continue;
+      }
       CPPFunctionType *ftype = function->_type->as_function_type();
       if (ftype != nullptr) {
         getkey_function = function;
@@ -2112,6 +2136,10 @@ get_make_property(CPPMakeProperty *make_property, CPPStructType *struct_type, CP
     CPPFunctionGroup::Instances::const_iterator fi;
     for (fi = fgroup->_instances.begin(); fi != fgroup->_instances.end(); ++fi) {
       CPPInstance *function = (*fi);
+      if (function->_vis > V_public) {
+        // A private or protected method cannot be called from a wrapper.
+        continue;
+      }
       iproperty._flags |= InterrogateElement::F_has_setter;
       iproperty._setter = get_function(function, "", struct_type,
                                        struct_type->get_scope(), 0);
@@ -2125,6 +2153,10 @@ get_make_property(CPPMakeProperty *make_property, CPPStructType *struct_type, CP
     CPPFunctionGroup::Instances::const_iterator fi;
     for (fi = fgroup->_instances.begin(); fi != fgroup->_instances.end(); ++fi) {
       CPPInstance *function = (*fi);
+      if (function->_vis > V_public) {
+        // A private or protected method cannot be called from a wrapper.
+        continue;
+      }
       iproperty._flags |= InterrogateElement::F_has_clear_function;
       iproperty._clear_function = get_function(function, "", struct_type,
                                                struct_type->get_scope(), 0);
@@ -2160,6 +2192,10 @@ get_make_seq(CPPMakeSeq *make_seq, CPPStructType *struct_type) {
   if (fgroup != nullptr) {
     for (fi = fgroup->_instances.begin(); fi != fgroup->_instances.end(); ++fi) {
       CPPInstance *function = (*fi);
+      if (function->_vis > V_public) {
+        // A private or protected method cannot be called from a wrapper.
+        continue;
+      }
       CPPFunctionType *ftype =
         function->_type->as_function_type();
       if (ftype != nullptr) {
@@ -2184,6 +2220,10 @@ get_make_seq(CPPMakeSeq *make_seq, CPPStructType *struct_type) {
   if (fgroup != nullptr) {
     for (fi = fgroup->_instances.begin(); fi != fgroup->_instances.end(); ++fi) {
       CPPInstance *function = (*fi);
+      if (function->_vis > V_public) {
+        // A private or protected method cannot be called from a wrapper.
+        continue;
+      }
       CPPFunctionType *ftype =
         function->_type->as_function_type();
       if (ftype != nullptr && ftype->_parameters->_parameters.size() >= 1 &&
